@@ -86,11 +86,12 @@ Definition mem_write_bytes (address : Z) (data : list Z) : MM unit :=
         match nth_error (mem s) k with
         | None => (Panic PIndex, s)   (* unreachable *)
         | Some a =>
-            if address + zlen data >? a_start a + a_len a then (Err EMem, s)
+            let n := zlen data in
+            if address + n >? a_start a + a_len a then (Err EMem, s)
             else if Z.land (a_access a) PROT_WRITE =? 0 then (Err EPerm, s)
             else
               let off := address - a_start a in
-              if off + zlen data <=? zlen (a_data a) then
+              if off + n <=? zlen (a_data a) then
                 (Ok tt, set_mem s (replace_nth (mem s) k
                                      (set_area_data a (splice (a_data a) off data))))
               else (Panic PIndex, s)
@@ -126,9 +127,10 @@ Definition area_blocks (a : area) (start len : Z) : bool :=
 
 Definition mem_init_area (start : Z) (data : list Z) : MM unit :=
   fun s =>
-    if start + zlen data >=? 2 ^ 64 then (Err EOther, s)
-    else if existsb (fun a => area_blocks a start (zlen data)) (mem s) then (Err EOther, s)
-    else (Ok tt, set_mem s (mem s ++ [{| a_start := start; a_len := zlen data; a_data := data;
+    let n := zlen data in
+    if start + n >=? 2 ^ 64 then (Err EOther, s)
+    else if existsb (fun a => area_blocks a start n) (mem s) then (Err EOther, s)
+    else (Ok tt, set_mem s (mem s ++ [{| a_start := start; a_len := n; a_data := data;
                                           a_access := Z.lor PROT_READ PROT_WRITE |}])).
 
 Definition mem_init_zero (start length : Z) : MM unit :=
